@@ -137,6 +137,32 @@ PROPS["C12"] = dict(
                  "stack depth is probed with the socket workers' 2 MiB default thread stack"],
 )
 
+PROPS["C06"] = dict(
+    suites=[dict(name="udp-sys-mio", harness="udp-sys", imports=["UdpSysCheck"], case_type="sys_case",
+                 check="udp_sys_code", monitor="udp_sys_code", count_quick=24, count_thorough=1500, nontrivial_bits=3, shrink=False,
+                 extra={"backend": "mio"}, crash_is_violation=True),
+            dict(name="udp-sys-uring", harness="udp-sys", imports=["UdpSysCheck"], case_type="sys_case",
+                 check="udp_sys_code", monitor="udp_sys_code", count_quick=24, count_thorough=1500, nontrivial_bits=3, shrink=False,
+                 extra={"backend": "uring"}, crash_is_violation=True)],
+    rule="udp-sys: RUNNING trackers (aquatic_udp::run in the harness process) on loopback, 4 configurations per backend (max_scrape_torrents "
+         "in {1,2,3,70}, max_response_peers in {1,2,4,30}, access list off/allow/deny, 1 or 2 socket workers, v4+v6 sockets or one dual-stack "
+         "v6 socket that sees v4 clients as ::ffff:127.0.0.1, max_connection_age 120 s or 1 s), 4 client sockets (two on 127.0.0.1, 127.0.0.2, "
+         "::1); 8..19 datagrams per case: connects (valid, wrong protocol id, truncated, extended), announces (all events, left extremes, "
+         "numwant extremes, port 0, truncated at a random offset, extended, one bit flipped, unknown event), scrapes (1..71 hashes, empty, "
+         "length not a multiple of 20, truncated header), unknown actions, random bytes; carried connection id: own / issued to another "
+         "socket of the same address / issued to another address / random / issued by another tracker instance / own with one bit flipped / "
+         "expired (1-second ids, the tracker is kept busy until its clock has advanced 3 s); each datagram bracketed by marker connects that "
+         "read the tracker's clock; observed: every datagram each client socket receives; non-trivial = the case has an answered non-connect "
+         "datagram and an unanswered one",
+    modelled="mio/socket.rs read_and_handle_requests + mio/mod.rs handle_request and their io_uring duplicates in uring/mod.rs, as one function "
+             "state x source x bytes -> state x option reply (UdpHandler.v) over the codec model (UdpCodec.v), the validator model "
+             "(Validator.v) and the canonical-address model (Addr.v); the swarm is abstract in the theorems and an oracle in the check, its "
+             "replies are judged by the reference tracker (C01/C02 monitors)",
+    assumptions=["little-endian host (connection id byte order)", "datagrams from source port 0 cannot be produced on loopback without raw sockets: "
+                 "that clause is a theorem about the model only", "loopback delivers in order per socket pair; io_uring send completions are "
+                 "given 15 ms", "the keyed hash is observed as a table; unobserved inputs take a value no sent id carries"],
+)
+
 PROPS["C05"] = dict(
     suites=[dict(name="validator", harness="validator", imports=["Validator"],
                  case_type="N * list (string * N) * list (N * string * string * bool)",
@@ -355,6 +381,17 @@ LEVELS["C12"] = dict(
     design_ref="DESIGN.md §7 C12", technique="Coq totality theorems for the handler models + differential fuzz-style correspondence (testing) for the parsers",
     note="Trusted: Coq kernel, models, harness. The parser half of this property is TESTING (not proof): httparse, simd-json, serde_bencode, "
          "tungstenite, regex are outside the model. One defect found and fixed (stack overflow on deeply nested ws JSON).")
+
+LEVELS["C06"] = dict(
+    text="Theorems for every keyed hash, swarm, state, source and BYTE STRING: a datagram yields at most one reply; from port 0 none; anything "
+         "sent back is the 16-byte connect reply to a well-formed connect (never longer than the request) or was caused by a request carrying a "
+         "connection id valid for the canonical source; unparseable input and invalid ids are never answered; a well-formed connect and every "
+         "parseable request with a valid id get exactly one reply; the reply echoes the transaction id and is of the kind called for (announce "
+         "of the sender's family, scrape with one entry per parsed hash - the parser keeps the first max_scrape_torrents in order -, the error "
+         "texts); tracker state changes only through an accepted announce. Tied to the code by running trackers of both backends.",
+    design_ref="DESIGN.md §7 C06", technique="Coq contract theorems over the handler model + in-Coq correspondence with running mio and io_uring trackers",
+    note="Trusted: Coq kernel, models, harness, little-endian host. Partial: source port 0 (model only), kernel socket demultiplexing and "
+         "SO_REUSEPORT distribution, resend buffer, statistics counters are runtime.")
 
 LEVELS["C05"] = dict(
     text="Theorems for every keyed-hash function, every time, age (0..2^32-1) and address: exact acceptance window; the accepted strings are "
